@@ -30,6 +30,7 @@ type exchange struct {
 	ncalls int
 	open   bool
 	hdr    http.Header // client's request headers at the time of the call
+	fg304  []string    // tags of 304s received by foreground calls
 }
 
 // sentBody remembers the exact bytes sent for a body token.
@@ -63,6 +64,9 @@ type World struct {
 	dateTab  map[string]int
 	etagTab  map[string]int
 	varyTab  map[string][]int
+	effHdr   map[string]http.Header // tok -> end-to-end headers expected now (after the 304s applied so far)
+	servedX  map[int]string         // exchange -> body token it was answered with from the store
+	bg304    map[int][]string       // exchange -> tags of 304s its background revalidation received
 	hangs    []chan struct{}
 	maxLat   int
 	scnSeed  int64
@@ -82,6 +86,9 @@ func newWorld(sc *Scenario, log *EventLog, seed int64) *World {
 		dateTab: map[string]int{},
 		etagTab: map[string]int{},
 		varyTab: map[string][]int{},
+		effHdr:  map[string]http.Header{},
+		servedX:  map[int]string{},
+		bg304:   map[int][]string{},
 		scnSeed: seed,
 	}
 	w.con = concretiser{rnd: w.rnd}
@@ -404,6 +411,7 @@ func (w *World) buildResponse(req *http.Request, a *Ans, now time.Time) (*http.R
 	w.mu.Lock()
 	if tok != "" {
 		w.sent[tok] = &sentResp{body: body, e2e: e2e, status: st}
+		w.effHdr[tok] = e2e.Clone()
 	}
 	w.tagHdr[tag] = e2e
 	w.mu.Unlock()
@@ -452,6 +460,11 @@ func (o *Origin) RoundTrip(req *http.Request) (*http.Response, error) {
 	}
 	t0 := time.Now()
 	inm, ims := req.Header.Get("If-None-Match"), req.Header.Get("If-Modified-Since")
+	if a.K == "304" && inm == "" && ims == "" {
+		// no origin answers 304 to an unconditional request
+		a = defaultAns()
+		scripted = 2
+	}
 	ev := M{"ev": "call", "x": x, "c": call, "bg": bg, "scripted": scripted, "k": a.K,
 		"m": req.Method, "t0": logT(w.epoch, t0), "lat": a.Lat,
 		"inm": w.etagClass(inm), "ims": w.dateClass(ims), "rng": b2i(req.Header.Get("Range") != ""),
@@ -500,8 +513,36 @@ func (o *Origin) RoundTrip(req *http.Request) (*http.Response, error) {
 		kind = "bodyerr"
 	}
 	m["reqT"], m["respT"] = logT(w.epoch, t0), w.now()
+	if bg == 0 && kind == "304" {
+		w.mu.Lock()
+		e.fg304 = append(e.fg304, tag)
+		w.mu.Unlock()
+	}
+	if bg == 1 && kind == "304" {
+		w.mu.Lock()
+		if tk, ok := w.servedX[x]; ok {
+			w.apply304(tk, tag)
+		} else {
+			w.bg304[x] = append(w.bg304[x], tag)
+		}
+		w.mu.Unlock()
+	}
 	done(kind, tag, tok, m, 0)
 	return resp, nil
+}
+
+// apply304 replaces the expected end-to-end fields of tok by those of the 304
+// with the given tag (w.mu held).
+func (w *World) apply304(tok, tag string) {
+	cur, h := w.effHdr[tok], w.tagHdr[tag]
+	if cur == nil || h == nil {
+		return
+	}
+	for k, v := range h {
+		if k != "Content-Length" {
+			cur[k] = v
+		}
+	}
 }
 
 func (w *World) hangRelease() chan struct{} {
